@@ -341,5 +341,6 @@ MANIFEST_ENTRY = {
                    'at a time, t in [0,2.509]; thorough: 13 templates, 4 directions, t in [0,5.019], ends of the PDB coordinate field, and the 24 grid '
                    'rotations composed with a symbolic shift. Kernel level: equivariance of the geometric kernels under generators of the rotation group '
                    'with fully symbolic coordinates. 1-bond hydrogen constructions (generic rotation axis) are covered only through the pipeline runs. '
-                   'Exact-real model: at exact cut-off distances doubles can differ (DESIGN.md section 8).'),
+                   'Exact-real model: at exact cut-off distances doubles can differ (DESIGN.md section 8).'
+                   ' O3: coordinate fields symbolic over every %8.3f rendering. Incomplete residues and the ligand/ion complex are included; hetero groups are excluded from the pKa / hydrogen clauses as the statement says.'),
 }
